@@ -309,17 +309,28 @@ class TermMixin:
             s = d.lin.single_sym()
             if s:
                 ns.excl[s] = frozenset(ns.excl.get(s, frozenset()) | set(vals))
-                # tighten bounds when the excluded values sit at the edge of the range
+            if s or not shape:
+                # tighten bounds when the excluded values sit at the edge of the range (for a compound linear value,
+                # e.g. `a.len() - b.len()` matched against 0, only the values of this switch are known to be excluded)
+                ex = ns.excl[s] if s else frozenset(vals)
                 lo, hi = self.ival(ns, d.lin)
                 try:
-                    while lo in ns.excl[s] and lo != float("-inf"):
+                    while lo in ex and lo != float("-inf"):
                         lo += 1
                     if lo != float("-inf") and lo > self.ival(ns, d.lin)[0]:
                         ns.add_fact(d.lin.sub(int(lo)), self)
-                    while hi in ns.excl[s] and hi != float("inf"):
+                    while hi in ex and hi != float("inf"):
                         hi -= 1
                     if hi != float("inf") and hi < self.ival(ns, d.lin)[1]:
                         ns.add_fact(Lin.const(int(hi)).sub(d.lin), self)
+                    if not s and len(ex) <= 16:
+                        # bounds that are linear facts rather than intervals
+                        for v in sorted(ex):
+                            if ns.holds(d.lin.sub(Lin.const(v)), self):
+                                ns.add_fact(d.lin.sub(Lin.const(v + 1)), self)
+                        for v in sorted(ex, reverse=True):
+                            if ns.holds(Lin.const(v).sub(d.lin), self):
+                                ns.add_fact(Lin.const(v - 1).sub(d.lin), self)
                 except Dead:
                     return out
             if shape:
